@@ -44,6 +44,24 @@ def registry():
                                           % _same('self', 'other', 'pgy', '%s.%s._value == %s.%s._value'),
                               'bool': 'result is True or result is False'},
                      modifies=[]))
+    # C05: construct(consistency_check=True): a key is handed out only for a valid domain and consistent y (and x); ValueError otherwise
+    t_ = lambda i: 'spec.keys.ival(tup[%d])' % i
+    xval = '(%s if len(tup) == 5 else None)' % t_(4)
+    ok = 'spec.keys.dsa_key_ok(%s, %s, %s, %s, %s)' % (t_(0), t_(1), t_(2), t_(3), xval)
+    reg.add(Contract(D + 'construct', params={'tup': 'tuple(int,int,int,int)|tuple(int,int,int,int,int)|tuple(%s,%s,%s,%s,%s)' % ((OINT,) * 5),
+                                              'consistency_check': ('const', True)},
+                     raises={'ValueError': ('iff', 'not %s' % ok)}, result=ODKEY,
+                     ensures={'comps': ' and '.join('result._key["%s"]._value == %s' % (c, t_(i)) for i, c in enumerate('ygpq')),
+                              'private': '("x" in result._key) == (len(tup) == 5)', 'x': 'len(tup) == 5 ==> result._key["x"]._value == %s' % t_(4)},
+                     modifies=[]))
+    et = lambda i: 'spec.keys.ival(tup[%d])' % i
+    exval = '(%s if len(tup) == 4 else None)' % et(3)
+    reg.add(Contract(E + 'construct', params={'tup': 'tuple(int,int,int)|tuple(int,int,int,int)|tuple(int,int)|tuple(int,int,int,int,int)'},
+                     raises={'ValueError': ('iff', 'len(tup) not in (3, 4) or not spec.keys.elgamal_key_ok(%s, %s, %s, %s)' % (et(0), et(1), et(2), exval))},
+                     result=OEKEY,
+                     ensures={'comps': 'result.p._value == %s and result.g._value == %s and result.y._value == %s' % (et(0), et(1), et(2)),
+                              'private': 'hasattr(result, "x") == (len(tup) == 4)', 'x': 'len(tup) == 4 ==> result.x._value == %s' % et(3)},
+                     modifies=[]))
     return reg
 
 
@@ -52,4 +70,7 @@ def units(prop, tier):
     if prop == 'C08':
         return [pyvc_unit(prop, 'key.dsa.eq', registry, [DKEY + '.__eq__']),
                 pyvc_unit(prop, 'key.elgamal.eq', registry, [EKEY + '.__eq__'])]
+    if prop == 'C05':
+        return [pyvc_unit(prop, 'key.dsa.construct', registry, [D + 'construct']),
+                pyvc_unit(prop, 'key.elgamal.construct', registry, [E + 'construct'])]
     return []
